@@ -49,6 +49,7 @@ TABLE: list[tuple[str, str, bool, str, list[F]]] = [
             F("text", "str", "prop", "str"),
             F("note", "str", "prop", "str", 'field(default="", compare=False)', compare=False),
             F("tagged", "str", "prop", "str", 'field(default="", compare=False, hash=True)', compare=False),
+            F("hf", "str", "prop", "str", 'field(default="", hash=False)'),  # out of __hash__ by declaration, still comparable content
             F("seq", "int", "prop", "int", "field(init=False, default=7)", init=False),
             F("hid", "int", "prop", "int", "field(init=False, compare=False, default=9)", compare=False, init=False),
             F("kw", "int", "prop", "int", "1"),
@@ -391,6 +392,9 @@ ORIGINS: dict[str, Any] = {
 }
 ORIGINS["m:aa"] = MultiOrigin([ORIGINS["c:a:0-5"], ORIGINS["c:a:6-10"]])
 ORIGINS["m:ab"] = MultiOrigin([ORIGINS["c:a:0-5"], ORIGINS["x:b:/r/t"]])
+# a multi-origin over two equal but DISTINCT source objects (the same unit opened twice)
+_SRC_A2 = MemoryTextSource("alpha beta gamma delta", source_uri="mem:a")
+ORIGINS["m:a+a2"] = MultiOrigin([ORIGINS["c:a:0-5"], CodeOrigin(_SRC_A2, get_code_range(11, 1, 11, 16, 1, 16))])
 ORIGIN_KEYS = list(ORIGINS)
 # unequal origins that share one fqn (fqn = <source uri>::<start index>-<end index>), and an entire-source position:
 # only used where ids are not judged by their origin (C04, C16)
